@@ -907,6 +907,11 @@ def rule_cursor(ck, facts):
     ck.floor(R, "closure_cursor_resets", m, 1)
 
 def run(ck, facts, tier):
+    from ..rules import scratchlocal as _sl
+
+    _cov = roles.wasm_lowering(facts)
+    if _cov is not None:
+        _sl.run(ck, facts, "C05.scratch", roles.LANG, _cov)
     from ..rules import saverestore
 
     saverestore.run(ck, facts, "C05.cursor", "mimium_lang", scope="::runtime::", floor=2, why="fields of the machine that describe the running activation")
